@@ -1,3 +1,166 @@
-(* C07 - placeholder replaced below *)
-From Coq Require Import List.
-Theorem C07_placeholder : True. Proof. exact I. Qed.
+(* C07 - Candidate lists are complete, consistently paged, and choosing i yields item i.
+   Property theorems only (proofs: Proofs/Paging.v, Proofs/EditorInv.v, Proofs/EditorSelect.v).
+   Model: Model/Editor.v (Selecting state, three selectors, paging, select_offset), tied to
+   src/editor/mod.rs + src/editor/selection/{phrase,symbol}.rs by the editor correspondence
+   (vharness `ed` vs the extracted model) and the impl-side oracle vplib/edoracles.c07. *)
+From Coq Require Import NArith List Bool Arith Lia.
+From LC Require Import Base.Lib Gen.Editor_gen Model.Syllable Model.Composition Model.Conversion Model.Editor Model.EditorRun
+     Model.EdInst Proofs.CompositionProofs Proofs.Paging Proofs.EditorInv Proofs.EditorSelect Proofs.EditorWitness Proofs.EdInstProofs.
+Import ListNotations.
+Open Scope nat_scope.
+
+(* ------------------------------------------------------------------ paging arithmetic *)
+
+(* the page count is the ceiling of total / page size: the least n with n * per >= total *)
+Theorem C07_page_count_is_ceiling : forall total per, 0 < per ->
+  total <= pages_of total per * per /\ (forall n, total <= n * per -> pages_of total per <= n).
+Proof.
+  intros total per Hp. split; [|intros n; now apply pages_of_least].
+  destruct total as [|t]; [lia|]. now destruct (pages_of_bounds (S t) per Hp ltac:(lia)) as (_ & H & _).
+Qed.
+Print Assumptions C07_page_count_is_ceiling.
+
+(* the pages, in order, are exactly the list; every page but the last is full and the last one
+   is not empty; item k of page i is item i*per+k of the list (what a selection key chooses) *)
+Theorem C07_pages_partition_the_list : forall (A : Type) per (l : list A), 0 < per ->
+  concat (map (page per l) (seq 0 (pages_of (length l) per))) = l /\
+  (forall i, i < pages_of (length l) per ->
+     1 <= length (page per l i) <= per /\ (S i < pages_of (length l) per -> length (page per l i) = per)) /\
+  (forall i k, k < per -> nth_error (page per l i) k = nth_error l (i * per + k)).
+Proof.
+  intros A per l Hp. split; [now apply pages_partition|].
+  split; [intros i Hi; now apply page_sizes | intros i k Hk; now apply page_nth].
+Qed.
+Print Assumptions C07_pages_partition_the_list.
+
+Section C07.
+Context {D SY : Type} (dops : dict_ops D) (sops : syl_ops SY) (conv : conv_fn).
+(* "well-formed dictionary" and layout hypotheses (the instance of the correspondence meets them: EdInstProofs) *)
+Variable dict_ok : D -> Prop.
+Hypothesis ok_lookup : forall d f, dict_ok d -> do_lookup dops d f [] = [].
+Hypothesis ok_add : forall d k t f, dict_ok d -> length t <= length k -> dict_ok (fst (do_add dops d k t f)).
+Hypothesis ok_update : forall d k t f u tm, dict_ok d -> length t = length k -> k <> [] -> dict_ok (do_update dops d k t f u tm).
+Hypothesis ok_remove : forall d k t, dict_ok d -> dict_ok (do_remove dops d k t).
+Hypothesis alt_stable : forall x c, so_alt sops (so_clear sops x) c = so_alt sops x c.
+
+(* the reported page count is the ceiling of the number of candidates over the page size *)
+Theorem C07_total_page : forall (s : shared D SY) sel tp, total_page dops sops s sel = Ok tp ->
+  exists c, candidates dops sops s sel = Ok c /\ 0 < o_per_page (opts s) /\ tp = pages_of (length c) (o_per_page (opts s)).
+Proof. exact (total_page_spec dops sops). Qed.
+
+(* After EVERY history of key events and public operations (paging keys, range moves with
+   Down/Space, j/k, list first/last/next/prev, choices, option changes incl. the page size,
+   user-phrase changes, reset ...) from any state satisfying the invariant: while a list is
+   open the current page index is below the page count (page 0 for an empty list), for every
+   kind of list, every layout, dictionary and conversion oracle. *)
+Theorem C07_page_index_below_page_count_every_history : forall ops (e e' : editor D SY) pg act sel c,
+  Inv dops sops dict_ok e -> run dops sops conv e ops = Ok e' ->
+  st e' = Selecting pg act sel -> 1 <= o_per_page (opts (sh e')) -> candidates dops sops (sh e') sel = Ok c ->
+  (c <> [] -> pg < pages_of (length c) (o_per_page (opts (sh e')))) /\ (c = [] -> pg = 0).
+Proof.
+  intros ops e e' pg act sel c I H Hst Hper Hc.
+  pose proof (run_inv dops sops conv dict_ok ok_lookup ok_add ok_update ok_remove alt_stable ops e e' I H) as [_ Ist].
+  rewrite Hst in Ist. destruct Ist as (_ & Hpg). specialize (Hpg Hper c Hc). split.
+  - intros Hne. apply page_index_valid; [lia|]. destruct Hpg as [->|Hlt]; [|exact Hlt].
+    destruct c; [contradiction | cbn; lia].
+  - intros ->. destruct Hpg as [->|Hlt]; [reflexivity | cbn in Hlt; lia].
+Qed.
+
+(* ... and the highlighted range of a phrase list is a non-empty range of the editor's CURRENT
+   buffer (the buffer cannot change while the list is open) *)
+Theorem C07_range_inside_current_buffer_every_history : forall ops (e e' : editor D SY) pg act p,
+  Inv dops sops dict_ok e -> run dops sops conv e ops = Ok e' -> st e' = Selecting pg act (SelPhrase p) ->
+  ps_com p = inner (com (sh e')) /\ ps_begin p < ps_end p <= ce_len (com (sh e')).
+Proof.
+  intros ops e e' pg act p I H Hst.
+  pose proof (run_inv dops sops conv dict_ok ok_lookup ok_add ok_update ok_remove alt_stable ops e e' I H) as [_ Ist].
+  rewrite Hst in Ist. destruct Ist as (((Hlt & Hle) & Hcom) & _). unfold ce_len. rewrite <- Hcom. auto.
+Qed.
+
+(* for a phrase range the list is the (layered) dictionary's answer for exactly the highlighted
+   syllables, in the dictionary's order, plus - for one syllable - the layout's alternates *)
+Theorem C07_phrase_list_is_the_dictionary_lookup : forall (s : shared D SY) p c,
+  candidates dops sops s (SelPhrase p) = Ok c ->
+  (forall ph, In ph (do_lookup dops (dict s) (ps_fuzzy p) (range_key p)) -> In (fst ph) c) /\
+  exists alts, c = map fst (do_lookup dops (dict s) (ps_fuzzy p) (range_key p)) ++ alts /\
+    (ps_end p - ps_begin p <> 1 -> alts = []) /\
+    (ps_end p - ps_begin p = 1 -> exists code, slice (symbols (ps_com p)) (ps_begin p) (ps_end p) = [SymSyl code] /\
+       alts = flat_map (fun a => map fst (do_lookup dops (dict s) (ps_fuzzy p) [a])) (so_alt sops (syl s) code)).
+Proof.
+  intros s p c H. split; [intros ph; now apply (candidates_phrase_complete dops sops s p c ph) | now apply candidates_phrase_spec].
+Qed.
+
+(* choosing candidate n (absolute index; a selection key on page pg chooses pg*per + key) puts
+   exactly that string on exactly the highlighted range as the user's choice, replaces only the
+   choices it overlaps, changes no symbol and closes the list *)
+Theorem C07_choosing_n_yields_item_n : forall (s : shared D SY) pg act p n c text s' t pg' sel',
+  wf_ce (com s) -> ps_begin p < ps_end p ->
+  candidates dops sops s (SelPhrase p) = Ok c -> nth_error c n = Some text ->
+  selecting_select_offset dops sops s pg act (SelPhrase p) n = Ok (s', t, pg', sel') ->
+  t = ToState Entering /\
+  In (mkIv (ps_begin p) (ps_end p) true text) (selections (inner (com s'))) /\
+  symbols (inner (com s')) = symbols (inner (com s)) /\
+  selections (inner (com s')) =
+    filter (fun x => negb (iv_intersect x (mkIv (ps_begin p) (ps_end p) true text))) (selections (inner (com s)))
+    ++ [mkIv (ps_begin p) (ps_end p) true text] /\
+  dict s' = dict s /\ opts s' = opts s.
+Proof. exact (choose_in_range_phrase dops sops). Qed.
+
+Theorem C07_selection_key_is_page_relative : forall (s : shared D SY) pg act sel n,
+  selecting_select dops sops s pg act sel n = selecting_select_offset dops sops s pg act sel (pg * o_per_page (opts s) + n).
+Proof. reflexivity. Qed.
+
+(* an out-of-range index is rejected (bell) and nothing at all changes, in all three kinds of list *)
+Theorem C07_out_of_range_rejected_without_change : forall (s : shared D SY) pg act sel n c s' t pg' sel',
+  candidates dops sops s sel = Ok c -> length c <= n ->
+  selecting_select_offset dops sops s pg act sel n = Ok (s', t, pg', sel') ->
+  s' = s /\ t = Spin BBell /\ pg' = pg /\ sel' = sel.
+Proof. exact (choose_out_of_range dops sops). Qed.
+
+(* a special-symbol choice inserts / replaces exactly entry n of the list and closes it *)
+Theorem C07_special_symbol_choice : forall (s : shared D SY) pg act sym0 n c ch s' t pg' sel',
+  candidates dops sops s (SelSpecial sym0) = Ok c -> nth_error c n = Some ch ->
+  selecting_select_offset dops sops s pg act (SelSpecial sym0) n = Ok (s', t, pg', sel') ->
+  t = ToState Entering /\ exists x c1, ch = [x] /\
+    (if act then ce_insert (com s) (SymChar x) else ce_replace (com s) (SymChar x)) = Ok c1 /\
+    com s' = ce_pop_cursor c1.
+Proof. exact (choose_in_range_special dops sops). Qed.
+
+End C07.
+Print Assumptions C07_total_page.
+Print Assumptions C07_page_index_below_page_count_every_history.
+Print Assumptions C07_range_inside_current_buffer_every_history.
+Print Assumptions C07_phrase_list_is_the_dictionary_lookup.
+Print Assumptions C07_choosing_n_yields_item_n.
+Print Assumptions C07_selection_key_is_page_relative.
+Print Assumptions C07_out_of_range_rejected_without_change.
+Print Assumptions C07_special_symbol_choice.
+
+(* ------------------------------------------------------------------ the pinned tree *)
+(* On the pinned tree the page index could exceed the page count: page 3 of 3 (page size 1),
+   then the page size becomes 10.  Replayed on the implementation (C API: candPerPage 1, type,
+   Down, Right x n, candPerPage 10 -> CurrentPage n >= TotalPage); fixed by 68d3a38. *)
+Theorem C07_page_after_resize_pinned_refuted :
+  exists e, run md_ops std_ops conv_single (m_init d3 [] ss_empty 0%N) open_third_page = Ok e /\
+    let e' := ed_set_options std_ops e (per_page default_options 10) in
+    ed_page_no e' = Some 2 /\ ed_total_page md_ops std_ops e' = Ok (Some 1).
+Proof. exact page_after_resize_pinned_refuted. Qed.
+Print Assumptions C07_page_after_resize_pinned_refuted.
+
+(* non-vacuity: the same history on the model of the current code reaches an open list on its
+   third page (so the premises of the every-history theorems are met by a non-trivial state),
+   and the resize lands on page 0 of 1 *)
+Theorem C07_page_after_resize_fixed :
+  exists e e', run md_ops std_ops conv_single (m_init d3 [] ss_empty 0%N) open_third_page = Ok e /\
+    ed_set_options_c md_ops std_ops e (per_page default_options 10) = Ok e' /\
+    ed_page_no e' = Some 0 /\ ed_total_page md_ops std_ops e' = Ok (Some 1).
+Proof. exact page_after_resize_fixed. Qed.
+Print Assumptions C07_page_after_resize_fixed.
+
+Example C07_nonvacuous :
+  md_ok d3 /\ (forall x c, so_alt std_ops (so_clear std_ops x) c = so_alt std_ops x c) /\
+  exists e, run md_ops std_ops conv_single (m_init d3 [] ss_empty 0%N) open_third_page = Ok e /\ ed_page_no e = Some 2.
+Proof.
+  split; [repeat constructor; discriminate|]. split; [reflexivity|].
+  vm_compute. eexists. split; reflexivity.
+Qed.
